@@ -132,12 +132,43 @@ pub fn run(tier: Tier) -> i32 {
         };
         *classes.lock().unwrap().entry(class).or_insert(0) += 1;
     });
+    // the union "after foreign-key substitution" when the substituted value comes through an inherits chain:
+    // k = `$t(tgt)` in the leaf, tgt null in the leaf, null / absent in its parent, written (with its own
+    // variables and a component) in the grandparent and (with others) in the default
+    {
+        let locs = ["en", "fr", "de", "it"];
+        let maps: Vec<Vec<(&str, &str)>> = vec![vec![], vec![("de", "fr")], vec![("de", "it"), ("it", "fr")], vec![("de", "it"), ("it", "de")], vec![("de", "it"), ("it", "fr"), ("fr", "it")], vec![("it", "fr"), ("de", "it"), ("fr", "en")]];
+        let mut extra = vec![];
+        for m in &maps {
+            for it_state in 0..3 {
+                let mut cfg = Config::simple("en", &locs);
+                cfg.inherits = m.iter().map(|(a, b)| (a.to_string(), b.to_string())).collect();
+                let mut p = Project::new(cfg);
+                p.set_file(None, "en", vec![("k".into(), st("[en.k]")), ("tgt".into(), s(vec![text("[en.tgt]"), var("only_en"), comp("u", vec![text("x")])]))]);
+                p.set_file(None, "fr", vec![("k".into(), s(vec![text("[fr.k]"), var("kfr")])), ("tgt".into(), s(vec![text("[fr.tgt]"), var("only_fr"), comp("b", vec![var("inner_fr")])]))]);
+                let mut it = vec![("k".to_string(), st("[it.k]"))];
+                match it_state {
+                    0 => it.push(("tgt".into(), Val::Null)),
+                    1 => {}
+                    _ => it.push(("tgt".into(), s(vec![text("[it.tgt]"), var("only_it")]))),
+                }
+                p.set_file(None, "it", it);
+                p.set_file(None, "de", vec![("k".into(), s(vec![text("[de.k]"), fk("tgt")])), ("tgt".into(), Val::Null)]);
+                extra.push(p);
+            }
+        }
+        par_for(extra.len(), |w, i| {
+            let (_e, _o) = check_project(&rep, "C08", "inherits-fk", &extra[i], &scratch.worker(w), &keys_total);
+            rep.eval(1);
+        });
+        rep.count("inherits_fk_projects", extra.len() as u64);
+    }
     rep.nontriv(jobs.len() as u64);
     for j in [5usize, jobs.len() / 2, jobs.len() - 5] {
         rep.sample(json!({"kinds_per_locale": jobs[j], "project": vmodel::report::truncate(&project_for(&jobs[j]).describe(), 500)}));
     }
     let mut cov = serde_json::Map::new();
-    cov.insert("rule".into(), json!(format!("every 1-, 2- and 3-tuple of per-locale value kinds {kinds:?} for one key (default locale first, never null); oracle: observed InterpolOrLit == union over defining locales of variables (with formatter families and count typing) and components after substitution, plain literal iff every locale is a literal of one type; RangeTypeMissmatch / RangeAndPluralsMix exactly when one count variable is typed two ways; every key also rendered in every locale")));
+    cov.insert("rule".into(), json!(format!("every 1-, 2- and 3-tuple of per-locale value kinds {kinds:?} for one key (default locale first, never null); 18 four-locale projects where the substituted value of a reference comes through an inherits chain (target null / absent / written in the middle locale, six inherits maps incl. loops); oracle: observed InterpolOrLit == union over defining locales of variables (with formatter families and count typing) and components after substitution, plain literal iff every locale is a literal of one type; RangeTypeMissmatch / RangeAndPluralsMix exactly when one count variable is typed two ways; every key also rendered in every locale")));
     cov.insert("exhaustive".into(), json!(true));
     cov.insert("outcome_classes".into(), json!(*classes.lock().unwrap()));
     cov.insert("key_locale_comparisons".into(), json!(*keys_total.lock().unwrap()));
